@@ -7,7 +7,7 @@ from pyvaporation.pervaporation import Pervaporation
 from pyvaporation.process import ProcessModel
 
 from gen import Case, emit_family
-from objs import V, all_vars, sym_mixture, act_text, Reifier, app, sym_permeance, ctype_text, units_text
+from objs import V, all_vars, sym_mixture, act_text, Reifier, app, sym_permeance, ctype_text, units_text, fresh_str
 from sym import TraceEscape
 from fam_solver import make_solve_stub, patch_attr, MODES, mode_vals, mode_text
 
@@ -31,7 +31,7 @@ BIND = '(PPf : num N -> Composition N -> ActModel -> num N * num N)'
 
 
 def comp(leaf, val, t):
-    c = pv.Composition(p=0.5, type=t)
+    c = pv.Composition(p=0.5, type=fresh_str(t))
     c.p = V(leaf, val)
     return c, '(Build_Composition N %s %s)' % (leaf, ctype_text(t))
 
